@@ -478,6 +478,11 @@ type c09Murmur struct {
 var kC09Murmur = register(&Kind[c09Murmur]{
 	Prop: "C09", Name: "murmur",
 	Gen: func(t *rapid.T) c09Murmur {
+		if rapid.IntRange(0, 19).Draw(t, "long") == 0 { // lengths whose upper half-word is not zero, block-aligned and not
+			n := rapid.SampledFrom([]int{65535, 65536, 65537, 65539, 131072, 200003}).Draw(t, "longlen")
+			d := bytes.Repeat(genBytesN(t, "unit", 7), n/7+1)[:n]
+			return c09Murmur{Seed: rapid.Uint32().Draw(t, "seed"), Data: d}
+		}
 		return c09Murmur{Seed: rapid.Uint32().Draw(t, "seed"), Data: genBytes(t, "data", 0, 64)}
 	},
 	Eval: func(c c09Murmur, o *Obs) error {
@@ -609,13 +614,58 @@ func evalC09Conc(c c09Conc, o *Obs) error {
 
 var kC09Conc = register(&Kind[c09Conc]{Prop: "C09", Name: "concurrent-insert", Eval: evalC09Conc,
 	Gen: func(t *rapid.T) c09Conc {
-		c := c09Conc{Len: rapid.SampledFrom([]int{8, 16, 64, 256}).Draw(t, "len"), K: uint32(rapid.IntRange(1, 3).Draw(t, "k")), Tweak: rapid.Uint32().Draw(t, "tweak"),
+		c := c09Conc{Len: rapid.SampledFrom([]int{8, 16, 64, 256, 3, 5, 7, 9, 13, 63, 65, 255, 257}).Draw(t, "len"), K: uint32(rapid.IntRange(1, 3).Draw(t, "k")), Tweak: rapid.Uint32().Draw(t, "tweak"),
 			G: rapid.IntRange(2, 8).Draw(t, "g"), Rounds: pick(200, 2000), Method: rapid.IntRange(0, 2).Draw(t, "method"), Reload: rapid.IntRange(0, 2).Draw(t, "reload") == 0}
 		c.N = c.Len * 4 / int(c.K) // about half of the bits end up set: most insertions set a bit for the first time
 		if c.N < c.G {
 			c.N = c.G
 		}
 		return c
+	}})
+
+// ---- kind: bulk ---------------------------------------------------------------------------------
+// Tens of thousands of probes into one filter of an awkward size (primes, powers of two +-1, the maximum):
+// whatever replaces "hash modulo the number of bits" has to be exact for every hash value, not for most.
+
+type c09Bulk struct {
+	Len   int    `json:"len"`
+	K     uint32 `json:"k"`
+	Tweak uint32 `json:"tweak"`
+	N     int    `json:"items"`
+}
+
+func evalC09Bulk(c c09Bulk, o *Obs) error {
+	if c.Len < 1 || c.Len > 36000 || c.K < 1 || c.K > 50 || c.N < 1 || c.N > 200000 {
+		return hbug("bad bulk case")
+	}
+	o.NT()
+	o.Class("C09:bulk")
+	f := bloom.LoadFilter(wire.NewMsgFilterLoad(make([]byte, c.Len), c.K, c.Tweak, wire.BloomUpdateNone))
+	m := newRefBloom(c.Len, c.K, c.Tweak, 0)
+	for i := 0; i < c.N; i++ {
+		it := derivedItem(c.Tweak^0x5bd1e995, i)
+		if i%2 == 0 {
+			if got, want := f.Matches(it), m.has(it); got != want {
+				return fmt.Errorf("filter(len=%d,k=%d,tweak=%d): Matches(%x) = %v before insertion, BIP37 model says %v (item %d of a bulk run)", c.Len, c.K, c.Tweak, it, got, want, i)
+			}
+		}
+		f.Add(it)
+		m.add(it)
+	}
+	if got := f.MsgFilterLoad().Filter; !bytes.Equal(got, m.bits) {
+		for i := range got {
+			if got[i] != m.bits[i] {
+				return fmt.Errorf("filter(len=%d,k=%d,tweak=%d) after %d insertions: byte %d is %#x, BIP37 model %#x", c.Len, c.K, c.Tweak, c.N, i, got[i], m.bits[i])
+			}
+		}
+	}
+	return nil
+}
+
+var kC09Bulk = register(&Kind[c09Bulk]{Prop: "C09", Name: "bulk", Eval: evalC09Bulk,
+	Gen: func(t *rapid.T) c09Bulk {
+		return c09Bulk{Len: rapid.SampledFrom([]int{1, 2, 3, 7, 127, 128, 129, 509, 512, 1021, 2501, 4099, 8191, 8192, 8193, 16411, 20011, 32768, 32771, 35999, 36000}).Draw(t, "len"),
+			K: uint32(rapid.SampledFrom([]int{1, 2, 5, 11, 50}).Draw(t, "k")), Tweak: rapid.Uint32().Draw(t, "tweak"), N: pick(6000, 60000)}
 	}})
 
 // ---- kind: sizing -------------------------------------------------------------------
@@ -704,6 +754,7 @@ func TestC09(t *testing.T) {
 		kC09Murmur.Run(t, ev, perShard(pick(3000, 2000000)))
 		kC09Size.Run(t, ev, perShard(pick(2000, 1000000)))
 		kC09Conc.Run(t, ev, perShard(pick(36, 600)))
+		kC09Bulk.Run(t, ev, perShard(pick(40, 800)))
 		ev.requireClasses("C09:k=0", "C09:k=50", "C09:len-class=1", "C09:len-class=36000", "C09:reload", "C09:unload",
 			"C09:add-len%4=0", "C09:add-len%4=1", "C09:add-len%4=2", "C09:add-len%4=3", "C09:sized-nonempty", "C09:add-item>520-bytes")
 	})
